@@ -12,8 +12,13 @@ PROVED for every recursion budget (no bound on depth):
   * `sql_apply_sound`: `operation.apply(target)` (a unary operation) inside the SQL engine does the same;
   * `join_of_selects_sound` (Lemmas/ConformSound.lean `join_sel_sound`): `_append_binary_to_select(Join)`
     - stripping the operands' projections, guarding hidden columns, re-projecting - yields the join.
-Not proved (validated by correspondence + structural oracle + SQLite): the `join` factory's own path
-(`PartialJoin` through `apply`), and that its result is already conformed.
+  * `sql_join_factory_sound`: `relation.join(rhs, predicate)` inside one SQL engine - `PartialJoin`
+    through `apply` with automatic resolution of the common columns - returns a coherent Select with
+    exactly the rows of the join; `factory_results_are_conformed`: the results of these factories are
+    Selects, so conforming them returns the same object.
+Not proved (validated by correspondence + structural oracle + SQLite): factories called with a preferred
+engine / back-tracking / transfer options that take the operation into another engine, and trees that
+already contain Select markers not produced by the engine.
 Further SUPPORTING theorems about the model:
   * conforming a `Select` returns the same object (`conform_select_is_same`): with "every SQL-engine
     relation the factories return is a Select" (validated) this is idempotence;
@@ -28,6 +33,7 @@ Further SUPPORTING theorems about the model:
 -/
 import DafRel.Lemmas.Conform
 import DafRel.Lemmas.ConformSound
+import DafRel.Lemmas.JoinFactory
 
 namespace DafRel.Props.C17
 
@@ -89,7 +95,32 @@ the result is well-formed and has exactly the rows and columns of the operation 
 theorem sql_apply_sound (σ : Leaves) (st : Store) (fuel : Nat) (op : UOp) (t : Rel) (res : Res)
     (hwf : t.WF) (htr : t.Truthful σ) (hraw : t.RawSql) (h : applyOp st fuel (.u op) t {} = .ok res) :
     FinishOK σ op t (res.get t) :=
-  ((treeBuild_sound σ st fuel).apply op t res (raw_good σ t hwf htr hraw) h).2
+  ((treeBuild_sound σ st fuel).apply op t res (raw_good σ t hwf htr hraw) h).2.1
+
+/-- **`relation.join(rhs, predicate)` inside one SQL engine.** -/
+theorem sql_join_factory_sound (σ : Leaves) (st : Store) (t rhs : Rel) (pred : Pred) (bt tr : Bool) (res : Res)
+    (hwt : t.WF) (htt : t.Truthful σ) (hrt : t.RawSql) (hwr : rhs.WF) (htr : rhs.Truthful σ) (hrr : rhs.RawSql)
+    (heng : rhs.engine = t.engine) (h : Rel.joinWith st t rhs pred bt tr = .ok res) :
+    ∃ common T, res = .new T ∧ SelOK σ T ∧
+      sem σ T = joinRows common pred (sem σ t) (sem σ rhs) ∧
+      (∀ c, c ∈ T.columns ↔ c ∈ t.columns.union rhs.columns) ∧ T.engine = t.engine ∧
+      common.subset rhs.columns = true ∧ common.subset t.columns = true := by
+  unfold Rel.joinWith JoinOp.make at h
+  simp only at h
+  obtain ⟨common, T, hT, _, okT, semT, colT, engT, c1, c2⟩ :=
+    applyOp_pj_sound σ st defaultFuel ⟨⟨pred, [], none⟩, rhs, false⟩ t { backtrack := bt, transfer := tr }
+      (raw_good σ t hwt htt hrt) (raw_good σ rhs hwr htr hrr) rfl heng
+      (fun hr => by simp [JoinOp.resolved] at hr) res h
+  exact ⟨common, T, hT, okT, semT, colT, engT, c1, c2⟩
+
+/-- The relations these factories return are Selects: conforming them returns the same object. -/
+theorem factory_results_are_conformed (σ : Leaves) (st : Store) (fuel fuel' : Nat) (op : UOp) (t : Rel) (res : Res)
+    (hwf : t.WF) (htr : t.Truthful σ) (hraw : t.RawSql) (h : applyOp st fuel (.u op) t {} = .ok res) :
+    (res.get t).isSelect = true ∧ conform st (fuel'+1) (res.get t) = .ok .same := by
+  have hs := ((treeBuild_sound σ st fuel).apply op t res (raw_good σ t hwf htr hraw) h).2.2
+  refine ⟨hs, ?_⟩
+  cases hr : res.get t <;> simp [hr, Rel.isSelect] at hs
+  rw [conform]
 
 /-! ### Non-vacuity -/
 
